@@ -134,6 +134,11 @@ def gen(rng, tier):
         clients.append(ops)
     if rng.random() < 0.35:
         clients[rng.randrange(nclients)].append(["shutdown", rng.random() < 0.7])
+    if not blocking and depth >= 1 and rng.random() < 0.1:
+        # somebody shuts an inner executor (or the base) down directly, early on: later submits are
+        # refused from inside the outer executors - and everything else must keep working
+        c = rng.randrange(nclients)
+        clients[c].insert(rng.randrange(len(clients[c]) + 1), ["shutdown-inner", rng.randrange(depth)])
     return {"sim": runner.draw_sim_cfg(rng, est=400), "base": base, "layers": layers,
             "subs": subs, "clients": clients, "settle": 15.0}
 
@@ -196,6 +201,11 @@ def run(spec, env):
                     env.rec("op", "shutdown", op[1])
                     ex.shutdown(op[1])
                     env.rec("op", "shutdown-ret")
+                    continue
+                if k == "shutdown-inner":
+                    env.rec("op", "shutdown-inner", op[1])
+                    chain[min(op[1], len(chain) - 2)].shutdown(True)
+                    env.rec("op", "shutdown-inner-ret")
                     continue
                 f = futs.get(op[1])
                 if f is None:
